@@ -15,6 +15,8 @@ type SelfTest struct {
 
 // SelfTests lists them.
 var SelfTests = []SelfTest{
+	{Name: "bip32-model-vectors", For: map[string]bool{"C15": true}, Run: model.SelfTestBIP32},
+	{Name: "hd-version-table", For: map[string]bool{"C15": true}, Run: selfTestNets},
 	{Name: "mutex-layout", For: map[string]bool{"C20": true}, Run: sched.SelfTestMutexLayout},
 	{Name: "bloom-model-vectors", For: map[string]bool{"C09": true, "C10": true, "C20": true}, Run: model.SelfTestBloom},
 }
